@@ -1,4 +1,16 @@
 ------------------------------- MODULE BigNat -------------------------------
+(* INTERFACE SUMMARY (stable; EXTENDS BigNat).  A number = little-endian sequence of limbs 0..4095; <<>> = 0;
+   trailing zero limbs allowed (compare with Eq/Cmp, never with =, or Norm first).
+   constants   Zero One Two   OfInt(v) (v < 2^31)   ToInt(a) (a < 2^31)   Norm(a)  IsZero(a)  IsOdd(a)
+   compare     Cmp(a,b) in {-1,0,1}  Less Leq Eq
+   arithmetic  Add(a,b)  AddInt(a,v)  Sub2(a,b) (a >= b)  SubB(a,b) = <<diff mod BASE^L, borrow>>  AbsDiff(a,b)
+               Mul(a,b)  Sqr(a)  MulInt(a,v) (v < 2^19)  DivMod(a,b) = <<q,r>>  Div  Mod  DivModInt(a,v)  Sqrt(a)
+   bits        BitLen(a)  Bit(a,k)  Shl(a,k)  Shr(a,k)  ModPow2(a,k)  PowerOf2(k)
+   modular     AddMod SubMod MulMod (a,b,m)   ModExp(a,e,m)   ModInv(a,m) (0 if not invertible)
+               GCD(a,b)   ExtGCD(a,m) = <<g,u>> with u*a == g (mod m)
+   conversions From16(s) / To16(a,L): 16-bit limbs as logged by jLimbs16;  FromOctets(s) / ToOctets(a,L)
+               (little-endian octets);  FromOctetsBE(s);  Fits16(a,L)
+   helpers     Rng(lo,hi) = <<lo,..,hi>>   Strict(s)   Get(a,i)   (Upto, Zeros, Min2, Max2, Sub ... from Bytes) *)
 (* Natural numbers of arbitrary size for TLC (whose integers are 32-bit signed).
    A number is a little-endian sequence of limbs in 0..4095 (base 2^12: a column of up to 128
    limb products still fits an int).  Trailing zero limbs are allowed everywhere; <<>> is 0.
